@@ -642,7 +642,7 @@ def c11_run(base_seed, idx, stats, opts):
 # ------------------------------------------------------------------------------ C12
 
 
-def _must_reject(prop, content, where, rmode, stats, log, full_len, on_disk=None):
+def _must_reject(prop, content, where, rmode, stats, log, full_len, on_disk=None, full=None):
     """load() of the torn state must raise.  content: bytes for a fresh file, or None with on_disk set."""
     d = disk.SimDisk(content, backing=BACKING[0]) if on_disk is None else on_disk
     size = len(content) if on_disk is None else d.size()
@@ -655,6 +655,25 @@ def _must_reject(prop, content, where, rmode, stats, log, full_len, on_disk=None
             stats.count("rejected_" + type(e).__name__)
         else:
             how = "%s handle on the file" % rmode
+        if loaded is None and full is not None and on_disk is None and d.path is not None and size % 2 == 0:
+            # crash, then the restarted writer retries through a temporary file and an atomic rename, while a reader
+            # still holds its handle on the torn file: the path now names a complete file, the handle does not
+            f = d.restart(rmode)
+            try:
+                tmp = d.path + ".tmp"
+                with open(tmp, "wb") as t:
+                    t.write(full)
+                os.replace(tmp, d.path)
+                stats.count("probe_torn_handle_outlives_rename_of_complete_file")
+                with warnings.catch_warnings():
+                    warnings.simplefilter("ignore")
+                    loaded = catii_indxio().load(f)
+                how = "%s handle opened before the writer's retry renamed a complete file over the path" % rmode
+            except Exception as e:
+                stats.count("rejected_after_rename_" + type(e).__name__)
+                loaded = None
+            finally:
+                f.close()
     finally:
         if on_disk is None:
             d.close()
@@ -662,6 +681,9 @@ def _must_reject(prop, content, where, rmode, stats, log, full_len, on_disk=None
         # the same torn bytes reaching load() through handles that cannot be mapped: an in-memory stream and a pipe
         IndxIO = catii_indxio()
         streams = [("BytesIO", io.BytesIO(content))]
+        if size % 2 == 0:
+            # ... and as an in-memory image, should load() take one (today it takes handles only and raises)
+            streams.append(("bytes-like", bytearray(content) if size % 4 else memoryview(content)))
         if size <= 32768 and size % 4 == 0:
             r, w = os.pipe()
             os.write(w, content)
@@ -782,7 +804,7 @@ def live_faults(prop, case, full, call_indexes, rmode, stats, log):
             if survived == full:
                 stats.count("io_error_after_last_byte")
                 continue
-            _must_reject(prop, survived, "live:%s:call%d" % (case["wmode"], j), rmode, stats, log, len(full))
+            _must_reject(prop, survived, "live:%s:call%d" % (case["wmode"], j), rmode, stats, log, len(full), full=full)
 
 
 def syscall_faults(prop, case, full, rmode, stats, log, sample=None):
@@ -860,7 +882,7 @@ def c12_execute(case, stats, log, only=None):
             stats.count("fault_crash_at_byte")
             stats.count("cut_region_" + refcodec.region_of(len(content), regs, len(full)))
             stats.count("crash_in_%s_level_write" % ops[j][0])
-            _must_reject(prop, content, "crash:op%d+%d" % (j, m), rmode, stats, log, len(full))
+            _must_reject(prop, content, "crash:op%d+%d" % (j, m), rmode, stats, log, len(full), full=full)
     # 2. disk full after k bytes, while the real save runs
     if only is None or only["fault"] == "fulldisk":
         for mode in ("raw", "bufw"):
